@@ -19,7 +19,8 @@ BODIES = ["call-target", "argument", "keyword-argument", "attribute-base", "bina
 BINDINGS = ["visible-undeclared", "declared-parameter", "local-assigned-earlier", "local-assigned-later(unjudged)", "for-target-earlier", "with-target-earlier", "module-level-assignment", "module-level-import", "module-level-def", "only-in-sibling-conftest", "unknown-name",
             "assigned-in-except-earlier", "except-as-name-earlier", "assigned-in-for-else-earlier", "assigned-in-try-finally-earlier", "local-import-earlier", "local-from-import-earlier",
             "local-def-earlier", "local-class-earlier", "tuple-unpack-earlier", "starred-unpack-earlier", "walrus-earlier", "match-capture-earlier", "assigned-in-match-case-earlier",
-            "assigned-in-while-body-earlier", "nested-with-as-tuple-earlier", "async-for-target-earlier", "assigned-in-except-star-earlier", "assigned-earlier-and-rebound-later", "augmented-earlier-and-rebound-later"]
+            "assigned-in-while-body-earlier", "nested-with-as-tuple-earlier", "async-for-target-earlier", "assigned-in-except-star-earlier", "assigned-earlier-and-rebound-later", "augmented-earlier-and-rebound-later",
+            "visible-undeclared-fixture-of-the-same-file-defined-above", "visible-undeclared-fixture-of-the-same-file-defined-below"]
 FLAVOURS = ["test", "fixture", "fixture-named-like-a-test"]
 DIMS = [("shape", SHAPES), ("body", BODIES), ("binding", BINDINGS), ("flavour", FLAVOURS)]
 
@@ -54,8 +55,10 @@ def body_lines(form, N):
 
 def build(a):
     shape, form, bind, flav = SHAPES[a["shape"]], a["body"], BINDINGS[a["binding"]], FLAVOURS[a["flavour"]]
-    N = {"only-in-sibling-conftest": "sibfx", "unknown-name": "nofx"}.get(bind, "fx")
+    N = {"only-in-sibling-conftest": "sibfx", "unknown-name": "nofx", "visible-undeclared-fixture-of-the-same-file-defined-above": "localfx",
+         "visible-undeclared-fixture-of-the-same-file-defined-below": "localfx"}.get(bind, "fx")
     L = ["import pytest", ""]
+    if bind == "visible-undeclared-fixture-of-the-same-file-defined-above": L += ["@pytest.fixture", "def localfx():", "    return 1", ""]
     if bind == "module-level-assignment": L += ["%s = 1" % N, ""]
     if bind == "module-level-import": L += ["from somewhere import %s" % N, ""]
     if bind == "module-level-def": L += ["def %s():" % N, "    return 1", ""]
@@ -136,6 +139,7 @@ def build(a):
     L.append("")
     # bystander functions (must never be touched by a quick fix)
     L += [ind + "def test_bystander(x1):", ind + "    pass", "", "def test_module_bystander(x2):", "    return x2", ""]
+    if bind == "visible-undeclared-fixture-of-the-same-file-defined-below": L += ["@pytest.fixture", "def localfx():", "    return 1", ""]
     return "\n".join(L) + "\n", name, N, use_first
 
 def expected(src, fname, N, bind, form):
@@ -149,7 +153,7 @@ def expected(src, fname, N, bind, form):
                     sites.append([m.lineno, s16, e16])
     sites.sort()
     judged = "(unjudged)" not in BODIES[form] and "(unjudged)" not in bind
-    if bind == "visible-undeclared":
+    if bind.startswith("visible-undeclared"):
         return judged, sites
     return judged, []
 
